@@ -13,7 +13,8 @@
 (*            positional, offsets: flags of the analyzer                          *)
 (*   highlight text, frags = [[code points]..] (markup stripped),                 *)
 (*            marks = [[frag, start, end, [term ids of the span re-analysed]]..], *)
-(*            qterms = term ids of the query                                      *)
+(*            qterms = term ids of the query, occ = [[frag, start, end]..] where  *)
+(*            the query's terms occur (whole-text fragments only)                 *)
 EXTENDS QuerySem, Json, IOUtils
 Cases == JsonDeserialize(IOEnv.TRACE_FILE)
 VARIABLE c
@@ -35,8 +36,16 @@ HighlightFacts(o) ==
    marks_inside_fragments |-> \A i \in DOMAIN o.marks :
         /\ o.marks[i][1] \in DOMAIN o.frags
         /\ 0 <= o.marks[i][2] /\ o.marks[i][2] < o.marks[i][3] /\ o.marks[i][3] <= Len(o.frags[o.marks[i][1]]),
-   marked_spans_are_query_terms |-> \A i \in DOMAIN o.marks :
-        ToSet(o.marks[i][4]) \cap ToSet(o.qterms) # {}]
+   \* the span, analysed on its own, gives a query term (asked where a token can be analysed out of context)
+   marked_spans_are_query_terms |-> o.spans_checked => \A i \in DOMAIN o.marks :
+        ToSet(o.marks[i][4]) \cap ToSet(o.qterms) # {},
+   \* (whole-text fragments only) a marked span is a union of whole occurrences of query terms: one of them
+   \* starts the span and ends inside it, one of them ends the span and starts inside it
+   marks_are_unions_of_matched_tokens |-> (o.occ # <<>>) => \A j \in DOMAIN o.marks :
+        /\ \E i \in DOMAIN o.occ : /\ o.occ[i][1] = o.marks[j][1] /\ o.occ[i][2] = o.marks[j][2]
+                                    /\ o.occ[i][3] <= o.marks[j][3]
+        /\ \E i \in DOMAIN o.occ : /\ o.occ[i][1] = o.marks[j][1] /\ o.occ[i][3] = o.marks[j][3]
+                                    /\ o.occ[i][2] >= o.marks[j][2]]
 
 ObsOK(idx, m, q, o) ==
   CASE o.kind = "ids" -> o.ids = Ids(m)
@@ -44,6 +53,7 @@ ObsOK(idx, m, q, o) ==
     [] o.kind = "stream" -> PositionsOK(o) /\ OffsetsOK(o)
     [] o.kind = "highlight" -> LET F == HighlightFacts(o) IN
          F.fragments_are_substrings /\ F.marks_inside_fragments /\ F.marked_spans_are_query_terms
+         /\ F.marks_are_unions_of_matched_tokens
     [] o.kind = "error" -> FALSE
 
 Expected(idx, m, q, o) ==
